@@ -1028,6 +1028,10 @@ func (c *trCtx) builtin(name string, x *ast.CallExpr) string {
 		}
 		trFail(x.Pos(), "len of %s is outside the subset", ty)
 	case "append":
+		if _, isSub := trUnparen(x.Args[0]).(*ast.SliceExpr); isSub {
+			// e.g. weights.Query.Execute: append(ss[:level], …) writes into the slice Universe.Locate returned (trans_units_perf.go)
+			trFail(x.Pos(), "append onto a sub-slice (xs[i:j]) may write into the array that xs shares: capacity and sharing of arrays are not modelled")
+		}
 		if x.Ellipsis != token.NoPos {
 			if len(x.Args) != 2 {
 				trFail(x.Pos(), "append with … and more than one argument is outside the subset")
